@@ -50,6 +50,7 @@ var c16Kinds = []c16Req{
 	{"bootstrap-auth", ""}, {"webauthn-register-begin", ""}, {"admin-bootstrap-otp", ""}, {"login", ""}, {"profile-view", ""},
 	// another user's requests share the in-memory tables
 	{"u2f-sign-request", "bob"}, {"u2f-sign-request", "alice"}, {"vip-push-start", "bob"},
+	{"oauth2-begin", ""}, {"oauth2-callback", ""},
 }
 
 type c16World struct {
@@ -59,6 +60,9 @@ type c16World struct {
 	assertion []byte // a valid U2F assertion for the pending challenge (same bytes for both presentations)
 	totpCode  string
 	regResp   []byte
+	oauth     *vFakeOAuth2
+	oaCookie  string
+	oaState   string
 }
 
 const c16User = "alice"
@@ -97,6 +101,16 @@ func c16NewWorld(shim bool) *c16World {
 	json.Unmarshal(resp.Body, &sr)
 	cw.assertion, _ = json.Marshal(cw.tok.signResponse(sr.Challenge, u2fAppID))
 	cw.totpCode = vTOTPCode(vTOTPSecretAlice, time.Now())
+	// a federated login is under way (begin done, callback pending)
+	cw.oauth = vNewFakeOAuth2("fedalice")
+	cw.oauth.attach(w)
+	begin := vServe(st.oauth2DoRedirectoToProviderHandler, vNewRequest("GET", oauth2LoginBeginPath, nil))
+	if ck := begin.Cookie(redirCookieName); ck != nil {
+		cw.oaCookie = ck.Value
+		if u, err := url.Parse(begin.Header.Get("Location")); err == nil {
+			cw.oaState = u.Query().Get("state")
+		}
+	}
 	if shim {
 		st.db.Close()
 		st.db, cw.ctl = vOpenShim(filepath.Join(w.dir, profileDBFilename))
@@ -147,6 +161,12 @@ func (cw *c16World) request(r c16Req) (*http.Request, http.HandlerFunc) {
 		req.AddCookie(&http.Cookie{Name: vipTransactionCookieName, Value: "vip-" + r.Arg})
 		h = st.vipPushStartHandler
 		user, bits = r.Arg, AuthTypePassword
+	case "oauth2-begin":
+		return vNewRequest("GET", oauth2LoginBeginPath, nil), st.oauth2DoRedirectoToProviderHandler
+	case "oauth2-callback":
+		req = vNewRequest("GET", redirectPath+"?state="+url.QueryEscape(cw.oaState)+"&code=c0de", nil)
+		req.AddCookie(&http.Cookie{Name: redirCookieName, Value: cw.oaCookie})
+		return req, st.oauth2RedirectPathHandler
 	case "webauthn-register-begin":
 		req = vNewRequest("GET", webAutnRegististerRequestPath+c16User, nil)
 		h = st.webauthnBeginRegistration
@@ -225,6 +245,7 @@ func c16Digest(w *vWorld) map[string]string {
 func c16RunSchedule(a, b c16Req, schedule string) c16Outcome {
 	cw := c16NewWorld(true)
 	defer cw.w.Close()
+	defer cw.oauth.srv.Close()
 	sched := &c16Scheduler{parked: make(chan chan struct{})}
 	cw.ctl.Lock()
 	cw.ctl.gate = sched.gate
@@ -395,7 +416,7 @@ func c16PairCheck(c c16PairCase) *vResult {
 
 func TestVerifC16Schedules(t *testing.T) {
 	vRunRapid(t,
-		"rapid draws a pair of requests on the same user from 20 request kinds (token management Disable/Delete/Enable/Update for U2F and TOTP, registration begin/finish, TOTP generate, TOTP / U2F / bootstrap-OTP authentication, webauthn begin, admin bootstrap OTP, login, profile view); for each pair ALL interleavings of the two requests' storage operations (profile load = query, profile write = begin) are enumerated under a scheduler that parks each operation in a wrapping SQL driver (count in coverage.per_test.extra.schedules_run); every case counts; distinct = the pair",
+		"rapid draws a pair of requests on the same user from 22 request kinds (token management Disable/Delete/Enable/Update for U2F and TOTP, registration begin/finish, TOTP generate, TOTP / U2F / bootstrap-OTP authentication, webauthn begin, admin bootstrap OTP, login, profile view); for each pair ALL interleavings of the two requests' storage operations (profile load = query, profile write = begin) are enumerated under a scheduler that parks each operation in a wrapping SQL driver (count in coverage.per_test.extra.schedules_run); every case counts; distinct = the pair",
 		func(t *rapid.T) c16PairCase {
 			a := rapid.SampledFrom(c16Kinds).Draw(t, "a")
 			b := rapid.SampledFrom(c16Kinds).Draw(t, "b")
@@ -425,6 +446,7 @@ func c16RaceCheck(c c16RaceCase) *vResult {
 	res.Desc = strings.Join(names, "|")
 	cw := c16NewWorld(false)
 	defer cw.w.Close()
+	defer cw.oauth.srv.Close()
 	cw.w.state.remoteDBQueryTimeout = 2 * time.Second
 	var wg sync.WaitGroup
 	start := make(chan struct{})
@@ -458,8 +480,19 @@ func c16RaceCheck(c c16RaceCase) *vResult {
 
 func TestVerifC16Race(t *testing.T) {
 	vRunRapid(t,
-		"rapid (binary built with -race): 2-4 requests from the 20 kinds plus the readiness probe and the pending-table cleaner on real goroutines released together; the driver turns race-detector reports whose stacks contain keymaster frames into violations; every case counts; distinct = the request multiset",
+		"rapid (binary built with -race): 2-4 requests from the 22 kinds plus the readiness probe and the pending-table cleaner on real goroutines released together; the driver turns race-detector reports whose stacks contain keymaster frames into violations; every case counts; distinct = the request multiset",
 		func(t *rapid.T) c16RaceCase {
+			// requests that share one in-memory table are worth meeting each other
+			groups := [][]c16Req{
+				{{"u2f-sign-request", "bob"}, {"u2f-sign-request", "alice"}, {"u2f-sign-response", ""}, {"webauthn-register-begin", ""}},
+				{{"oauth2-begin", ""}, {"oauth2-callback", ""}, {"oauth2-begin", ""}},
+				{{"vip-push-start", "bob"}, {"vip-push-start", "alice"}, {"login", ""}},
+				{{"totp-auth", ""}, {"totp-auth", ""}, {"totp-generate", ""}},
+			}
+			if rapid.Bool().Draw(t, "grouped") {
+				g := rapid.SampledFrom(groups).Draw(t, "group")
+				return c16RaceCase{Reqs: rapid.SliceOfN(rapid.SampledFrom(g), 2, 4).Draw(t, "greqs")}
+			}
 			return c16RaceCase{Reqs: rapid.SliceOfN(rapid.SampledFrom(c16Kinds), 2, 4).Draw(t, "reqs")}
 		}, c16RaceCheck)
 }
